@@ -98,6 +98,10 @@ def check(ctx):
                             h = st.heap[o.obj.id]
                             refc = ctx.call_func(I3, s3, "ref.preprocessing_ref.zero_variance_guard", X, w if weighted else vconst(None), cw, weighted, h["atol"], h["rtol"])
                             ctx.ob("R-ZEROVAR", f"the only input rejected by fit is `variance < atol + |mean| rtol` (of the statistic that is used) [{cfg}]", all(N.nf(g) == N.nf(refc.term) for g in gconds), f"guard(s) {[repr(g)[:160] for g in gconds if N.nf(g) != N.nf(refc.term)][:2] or [repr(g)[:160] for g in gconds[:1]]} vs reference {repr(refc.term)[:160]}", site, cfg)
+                            # 0/0: a statistic that divides by a quantity of the data which vanishes for admissible data (all-zero
+                            # columns: max|X|, a norm, a sum of X) is NaN there, and NaN passes every `<` guard
+                            dens = [d_ for g in gconds for d_ in tq.denominators(g) if tq.has_sym(d_, "X") and not tq.has_op(d_, "phi", "where3", "emax", "clip")]
+                            ctx.ob("R-ZEROVAR", f"the guarded statistic is not divided by a quantity of the data that can vanish (0/0 is NaN and passes the guard) [{cfg}]", not dens, f"divided by {[repr(d_)[:100] for d_ in dens[:2]]}" if dens else "no data-dependent denominator", site, cfg)
                     # transform / inverse on the fitted state
                     Xt = arr("Xt", "V", "M")
                     lo = len(I.events)
